@@ -9,6 +9,7 @@ CONSTANTS
   MaxRtx = 3
   MaxT1 = 2
   Win = 2
+  Initiators = {"A"}
   RtxBurst = 9
   Rwnd = 9
   DelaySack = FALSE
@@ -17,6 +18,6 @@ CONSTANTS
   Budget = 1
   Props = {"C01", "C12", "C13"}
 INVARIANTS TypeOK PrefixDelivery OneToOne OpenOnce OpenBeforeMessage ConsecutiveTsn WindowRespected NewDataWithinWindow
-PROPERTIES SetupIdempotent EventuallyDelivered
+PROPERTIES SetupIdempotent EventuallyDelivered T1Stops
 ACTION_CONSTRAINT NoEmit
 CHECK_DEADLOCK FALSE
